@@ -491,6 +491,80 @@ fn schedule(nthreads: usize, steps: &str) -> String {
     format!("H[{}]", r.join(" "))
 }
 
+/// One failing table call of the given kind (the same five as in `schedule`).
+unsafe fn failing_call(kind: usize, c_err: &mut *const dnssector::c_abi::CErr, pp: &mut ParsedPacket) -> i32 {
+    let table = dnssector::c_abi::fn_table();
+    let mut raw = [0u8; 256];
+    let mut raw_len: usize = 0;
+    match kind % ERR_KINDS {
+        0 => {
+            let n = b"a..b";
+            (table.raw_name_from_str)(&mut raw, &mut raw_len, c_err, n.as_ptr() as *const _, n.len())
+        }
+        1 => {
+            let n = [b'a'; 64];
+            (table.raw_name_from_str)(&mut raw, &mut raw_len, c_err, n.as_ptr() as *const _, n.len())
+        }
+        2 => {
+            let n = [b'a'; 300];
+            (table.raw_name_from_str)(&mut raw, &mut raw_len, c_err, n.as_ptr() as *const _, n.len())
+        }
+        3 => {
+            let n = [0xc3u8, 0xa9];
+            (table.raw_name_from_str)(&mut raw, &mut raw_len, c_err, n.as_ptr() as *const _, n.len())
+        }
+        _ => {
+            let txt = b"not a record\0";
+            (table.add_to_answer)(pp, c_err, txt.as_ptr() as *const _)
+        }
+    }
+}
+
+/// C16: thread A fails once and stays alive; `n` short-lived threads then make their first failing call one after the
+/// other (each exits before the next starts); A then reads its description. Any table of slots handed out by a wrapping
+/// counter gives A the description of the thread that wrapped onto its slot.
+fn sequential_failures(n: usize) -> String {
+    use std::ffi::CStr;
+    use std::sync::mpsc::channel;
+    let base: Vec<u8> = vec![0, 7, 0x81, 0x80, 0, 1, 0, 0, 0, 0, 0, 0, 1, b'q', 0, 0, 1, 0, 1];
+    let (failed_tx, failed_rx) = channel::<()>();
+    let (go_tx, go_rx) = channel::<()>();
+    let b0 = base.clone();
+    let a = std::thread::spawn(move || {
+        let table = dnssector::c_abi::fn_table();
+        let mut pp = DNSSector::new(b0).unwrap().parse().unwrap();
+        let mut c_err: *const dnssector::c_abi::CErr = std::ptr::null();
+        unsafe {
+            failing_call(0, &mut c_err, &mut pp);
+        }
+        failed_tx.send(()).unwrap();
+        go_rx.recv().unwrap();
+        unsafe {
+            let p = (table.error_description)(c_err);
+            CStr::from_ptr(p).to_string_lossy().replace(' ', "_")
+        }
+    });
+    failed_rx.recv().unwrap();
+    for i in 1..=n {
+        let b = base.clone();
+        let h = std::thread::Builder::new().stack_size(128 * 1024).spawn(move || {
+            let mut pp = DNSSector::new(b).unwrap().parse().unwrap();
+            let mut c_err: *const dnssector::c_abi::CErr = std::ptr::null();
+            unsafe {
+                failing_call(1 + i % 4, &mut c_err, &mut pp);
+            }
+        });
+        if h.unwrap().join().is_err() {
+            return "PANIC-IN-THREAD".to_string();
+        }
+    }
+    go_tx.send(()).unwrap();
+    match a.join() {
+        Ok(s) => format!("HS[{}]", s),
+        Err(_) => "PANIC-IN-THREAD".to_string(),
+    }
+}
+
 /// C17: f(x) alone, after f(y), and concurrently on 8 threads must be byte-identical.
 fn purity(opx: &str, opy: &str) -> String {
     let fresh = |op: &str| -> String {
@@ -550,6 +624,7 @@ fn run_op(ctx: &mut Ctx, op: &str) -> String {
     match f[0] {
         // ---- stateless -------------------------------------------------------------
         "H" => schedule(f[1].parse().unwrap(), f[2]),
+        "HS" => sequential_failures(f[1].parse().unwrap()),
         "K" => {
             let p = unhex(f[1]);
             let off: usize = f[2].parse().unwrap();
